@@ -215,6 +215,18 @@ func execRealOnce(sc RealScenario) *evid.Failure {
 					return evid.Failf("real/discover-wrong-connection", sc, "discovery call %d: the response sent by responder %d arrived with the connection of %s", k, from, sn.remote)
 				}
 			}
+			// every responder answered on a loss-free loopback: all of them must have been delivered
+			fromSeen := map[int]bool{}
+			for _, sn := range results[k] {
+				if parts := bytes.SplitN([]byte(sn.payload), []byte("-from-"), 2); len(parts) == 2 {
+					var from int
+					fmt.Sscanf(string(parts[1]), "%d", &from)
+					fromSeen[from] = true
+				}
+			}
+			if len(fromSeen) != len(responders) {
+				return evid.Failf("real/discover-response-lost", sc, "discovery call %d: %d responders answered with the request's token, the receiver saw responses of %d of them (%v)", k, len(responders), len(fromSeen), results[k])
+			}
 			// one receiver sees one token only
 			n := 0
 			for key := range tokens {
